@@ -6,7 +6,7 @@ from . import vlib
 from .vlib import log
 
 UN = ["then", "uerr", "udone", "md", "dao", "uns", "tag", "src", "era", "iv", "dfr", "alc"]
-BIN = ["lv", "le", "ld", "seq", "fin", "wa", "sw"]
+BIN = ["lv", "le", "ld", "seq", "fin", "wa", "sw", "any"]
 
 
 class Gen:
